@@ -900,7 +900,7 @@ func insertBeforeInSEL(ae1, ae2 *Active) {
 func findEdgeWithMatchingLocMin(e *Active) *Active {
 	result := e.nextInAEL
 	for result != nil {
-		if &result.localMin == &e.localMin {
+		if result.localMin == e.localMin {
 			return result
 		}
 		if !isHorizontal(result) && (e.bot != result.bot) {
@@ -912,7 +912,7 @@ func findEdgeWithMatchingLocMin(e *Active) *Active {
 
 	result = e.prevInAEL
 	for result != nil {
-		if &result.localMin == &e.localMin {
+		if result.localMin == e.localMin {
 			return result
 		}
 		if !isHorizontal(result) && (e.bot != result.bot) {
